@@ -201,7 +201,7 @@ CHECKS = {
     "C07": dict(
         category="exploration", engine="E1",
         technique="exhaustive product / all 1- and 2-option deviations of generator options over enumerated trees; re-parse equivalence oracle",
-        text="Trees parsed from the comment-carrying core grammar (k<=1, thorough k<=2 slice) per dialect, hand-written comment/newline "
+        text="Trees parsed from the comment-carrying core grammar (k<=1 per dialect; thorough: all of k<=2 in the base dialect), hand-written comment/newline "
              "statements, pretty.sql and identity.sql are generated under the full 6480-combination option product (simplest trees) and "
              "under every single- and two-option deviation from the defaults (all others); each text must re-parse in the same dialect "
              "to the tree of the default output modulo comments / quoting flags / function-name case as the deviating options allow, "
